@@ -108,7 +108,8 @@ static const int kGenKind[G_COUNT] = {K_A, K_A, K_A, K_A, K_B, K_B, K_B, K_C, K_
 static const char* kGenName[G_COUNT] = {"gen-asm-sections", "gen-asm-constpool", "gen-asm-tiny", "gen-asm-error", "gen-bld-sections",
                                         "gen-bld-edits", "gen-bld-error", "gen-cmp-spill-call", "gen-cmp-multifunc", "gen-cmp-error"};
 static const int kNumPrimOps = OP_GEN0 + G_COUNT;
-enum { OP_RECYCLE_SOFT = kNumPrimOps, OP_RECYCLE_HARD, OP_REATT_A, OP_REATT_B, OP_REATT_C, kNumOps };
+// (new ops are appended so that recorded replay files keep their meaning)
+enum { OP_RECYCLE_SOFT = kNumPrimOps, OP_RECYCLE_HARD, OP_REATT_A, OP_REATT_B, OP_REATT_C, OP_RECYCLE_REV, OP_RECYCLE_LAST, kNumOps };
 
 static std::string op_name(int op) {
   switch (op) {
@@ -125,6 +126,8 @@ static std::string op_name(int op) {
     case OP_FLATTEN: return "flatten";
     case OP_RECYCLE_SOFT: return "recycle-soft";
     case OP_RECYCLE_HARD: return "recycle-hard";
+    case OP_RECYCLE_REV: return "recycle-reversed";     // reset; init; attach the emitters in the REVERSE order
+    case OP_RECYCLE_LAST: return "recycle-last-only";   // reset; init; attach only the emitter that was attached last
     case OP_REATT_A: case OP_REATT_B: case OP_REATT_C: return std::string("reattach-") + kKindShort[op - OP_REATT_A];
     default: return (op >= OP_GEN0 && op < kNumPrimOps) ? kGenName[op - OP_GEN0] : "?";
   }
@@ -165,6 +168,7 @@ struct Model {
       case OP_NEWSEC: case OP_NEWLABEL: return inited ? CL_VALID : CL_NA;
       case OP_FLATTEN: return (inited && !relocated) ? CL_VALID : CL_NA;
       case OP_RECYCLE_SOFT: case OP_RECYCLE_HARD: return inited ? CL_VALID : CL_NA;
+      case OP_RECYCLE_REV: case OP_RECYCLE_LAST: return (inited && order.size() >= 2) ? CL_VALID : CL_NA;
       case OP_REATT_A: case OP_REATT_B: case OP_REATT_C: return att[op - OP_REATT_A] ? CL_VALID : CL_NA;
       default: {
         int k = kGenKind[op - OP_GEN0];
@@ -181,6 +185,11 @@ struct Model {
       v.push_back(op == OP_RECYCLE_SOFT ? OP_RESET_SOFT : OP_RESET_HARD);
       v.push_back(arch == AX64 ? OP_INIT_X64 : OP_INIT_A64);
       for (int k : order) v.push_back(OP_ATT_A + k);
+    } else if (op == OP_RECYCLE_REV || op == OP_RECYCLE_LAST) {
+      v.push_back(OP_RESET_HARD);
+      v.push_back(arch == AX64 ? OP_INIT_X64 : OP_INIT_A64);
+      if (op == OP_RECYCLE_REV) for (size_t i = order.size(); i-- > 0;) v.push_back(OP_ATT_A + order[i]);
+      else v.push_back(OP_ATT_A + order.back());
     } else if (op >= OP_REATT_A && op <= OP_REATT_C) { v.push_back(OP_DET_A + (op - OP_REATT_A)); v.push_back(OP_ATT_A + (op - OP_REATT_A)); }
     else v.push_back(op);
     return v;
